@@ -54,6 +54,10 @@ def reset(now: int = 0) -> None:
     HOLD["unzstd_ok"] = False
     HOLD["unzstd_raw"] = b""
     HOLD["rand"] = 0
+    HOLD["auth"] = None
+    HOLD["init_method"] = ""
+    HOLD["responses"] = []
+    HOLD["request_md"] = None
     del _ZTAB[:]
 
 
@@ -214,13 +218,43 @@ SECRETS = _Secrets()
 # the repository's token functions, same bytecode, stubbed environment
 # ---------------------------------------------------------------------------
 
+import struct as _struct
+
+
+class _StructShim(_Strict):
+    """``struct`` itself (CrossHair's model of it), except that ``unpack_from`` is expressed as ``unpack`` on
+    the exact slice: CrossHair 0.0.110's ``unpack_from`` on a *concrete* buffer calls
+    ``struct.unpack(fmt, buffer[offset:])`` and raises for any buffer longer than the format."""
+
+    _name = "struct"
+    error = _struct.error
+
+    def pack(self, fmt: str, *vals: Any) -> Any:
+        return _struct.pack(fmt, *vals)
+
+    def unpack(self, fmt: str, buf: Any) -> Any:
+        return _struct.unpack(fmt, buf)
+
+    def calcsize(self, fmt: str) -> int:
+        return _struct.calcsize(fmt)
+
+    def unpack_from(self, fmt: str, buf: Any, offset: int = 0) -> Any:
+        size = _struct.calcsize(fmt)
+        if offset < 0 or offset + size > len(buf):
+            raise _struct.error("unpack_from requires a buffer of at least %d bytes" % size)
+        return _struct.unpack(fmt, buf[offset : offset + size])
+
+
+STRUCT = _StructShim()
+read_segment = reglobalize(st._read_segment, struct=STRUCT)
+
 pack_plaintext = reglobalize(st._pack_plaintext, _compressor=lambda: _COMP)
 unpack_plaintext = reglobalize(st._unpack_plaintext, _decompressor=lambda: _DECOMP, zstandard=ZSTD)
 
 seal_cursor_token = reglobalize(st._seal_cursor_token, crypto=AEAD, base64=B64, _pack_plaintext=pack_plaintext)
-open_cursor_token = reglobalize(st._open_cursor_token, crypto=AEAD, base64=B64, _unpack_plaintext=unpack_plaintext, time=TIME)
+open_cursor_token = reglobalize(st._open_cursor_token, crypto=AEAD, base64=B64, _unpack_plaintext=unpack_plaintext, time=TIME, struct=STRUCT, _read_segment=read_segment)
 seal_call_token = reglobalize(st._seal_call_token, crypto=AEAD, base64=B64, _pack_plaintext=pack_plaintext)
-open_call_token = reglobalize(st._open_call_token, crypto=AEAD, base64=B64, _unpack_plaintext=unpack_plaintext, time=TIME)
+open_call_token = reglobalize(st._open_call_token, crypto=AEAD, base64=B64, _unpack_plaintext=unpack_plaintext, time=TIME, struct=STRUCT, _read_segment=read_segment)
 
 TOKEN_FUNCS = [
     st._pack_plaintext,
@@ -237,6 +271,7 @@ TOKEN_STUBS = [
     "base64 := lossless wrapper (decode(encode(x)) is x; garbage decodes to harness-chosen bytes or binascii.Error)",
     "zstandard := compress returns an opaque string shorter / not shorter than the input (harness-chosen) that decompress inverts exactly; foreign bodies raise ZstdError or yield harness-chosen bytes",
     "time.time := integer clock",
+    "struct.unpack_from(fmt, b, off) := struct.unpack(fmt, b[off:off+size]) with the same short-buffer error (CrossHair 0.0.110 mis-models unpack_from on concrete buffers)",
 ]
 
 
@@ -250,3 +285,744 @@ def http_error_info(exc: BaseException) -> tuple[int, str] | None:
     if type(cause) is not RuntimeError or len(cause.args) != 1:
         return None
     return int(exc.status_code), cause.args[0]
+
+
+# ---------------------------------------------------------------------------
+# AST -> SMT (strings) for the identity-encoding functions
+# (_compute_aad, _compute_call_aad, _CallStateCache._identity, _StickyMiddleware._principal_key)
+# ---------------------------------------------------------------------------
+# The functions are straight-line: guards on ``auth is None`` / ``auth.authenticated``, ``(x or "")``,
+# ``.encode()``, ``+`` on bytes, f-strings of strings.  ``encode_fn`` walks the *live* source and builds
+# a string term; anything else raises ``Unsupported`` (-> INCONCLUSIVE, never green).
+# Strings stand for their UTF-8 images (one solver character per byte); assumption: str.encode() is
+# injective and maps exactly the NUL-free strings to NUL-free byte strings.
+
+import ast
+import inspect
+import textwrap
+
+
+class Unsupported(Exception): pass
+
+class SymAuth:
+    """A symbolic AuthContext | None over solver module S: none, authenticated, domain/principal as Optional[str]
+    (strings stand for their UTF-8 images, one solver character per byte)."""
+    def __init__(self, S, tag):
+        self.S=S
+        self.is_none = S.Bool(f"{tag}_none"); self.authd = S.Bool(f"{tag}_auth")
+        self.dnone = S.Bool(f"{tag}_dnone"); self.d = S.String(f"{tag}_d")
+        self.pnone = S.Bool(f"{tag}_pnone"); self.p = S.String(f"{tag}_p")
+
+def _lit(S, b: bytes):
+    return S.StringVal(b.decode("latin-1"))
+
+def encode_fn(fn, S, auth):
+    tree = ast.parse(textwrap.dedent(inspect.getsource(fn)))
+    fdef = tree.body[0]
+    args = [a.arg for a in fdef.args.args]
+    if len(args) != 1: raise Unsupported("expected one parameter")
+    env = {args[0]: ("auth", auth)}
+    r = _block(S, fdef.body, env)
+    if r is None: raise Unsupported("function may fall off the end")
+    return r
+
+def _block(S, stmts, env):
+    for i, s in enumerate(stmts):
+        if isinstance(s, ast.Expr) and isinstance(s.value, ast.Constant): continue
+        if isinstance(s, ast.Assign) and len(s.targets)==1 and isinstance(s.targets[0], ast.Name):
+            env[s.targets[0].id] = _val(S, s.value, env); continue
+        if isinstance(s, ast.Return) and s.value is not None:
+            v = _val(S, s.value, env)
+            if v[0] not in ("bytes","str") or (v[0]=="str" and v[1] is not False): raise Unsupported("return of non-bytes/str")
+            return v[-1]
+        if isinstance(s, ast.If) and not s.orelse:
+            c = _bool(S, s.test, env)
+            t = _block(S, s.body, dict(env))
+            if t is None: raise Unsupported("if-body without return")
+            e = _block(S, stmts[i+1:], env)
+            if e is None: raise Unsupported("no return after if")
+            return S.If(c, t, e)
+        raise Unsupported(ast.dump(s)[:80])
+    return None
+
+def _val(S, n, env):
+    if isinstance(n, ast.Constant):
+        if isinstance(n.value, bytes): return ("bytes", _lit(S, n.value))
+        if isinstance(n.value, str): return ("str", False, _lit(S, n.value.encode()))
+        raise Unsupported("constant")
+    if isinstance(n, ast.Name):
+        if n.id in env: return env[n.id]
+        raise Unsupported("name "+n.id)
+    if isinstance(n, ast.Attribute) and isinstance(n.value, ast.Name) and env.get(n.value.id,(None,))[0]=="auth":
+        a = env[n.value.id][1]
+        if n.attr=="domain": return ("str", a.dnone, a.d)
+        if n.attr=="principal": return ("str", a.pnone, a.p)
+        if n.attr=="authenticated": return ("bool", a.authd)
+        raise Unsupported("auth."+n.attr)
+    if isinstance(n, ast.BinOp) and isinstance(n.op, ast.Add):
+        l=_val(S,n.left,env); r=_val(S,n.right,env)
+        if l[0]==r[0]=="bytes": return ("bytes", S.Concat(l[1], r[1]))
+        raise Unsupported("+ on non-bytes")
+    if isinstance(n, ast.BoolOp) and isinstance(n.op, ast.Or) and len(n.values)==2:
+        l=_val(S,n.values[0],env); r=_val(S,n.values[1],env)
+        if l[0]==r[0]=="str" and r[1] is False:
+            falsy = S.Length(l[2])==0 if l[1] is False else S.Or(l[1], S.Length(l[2])==0)
+            return ("str", False, S.If(falsy, r[2], l[2]))
+        raise Unsupported("or")
+    if isinstance(n, ast.Call) and isinstance(n.func, ast.Attribute) and n.func.attr=="encode" and not n.args and not n.keywords:
+        v=_val(S,n.func.value,env)
+        if v[0]=="str" and v[1] is False: return ("bytes", v[2])
+        raise Unsupported("encode on possibly-None")
+    if isinstance(n, ast.JoinedStr):
+        parts=[]
+        for p in n.values:
+            if isinstance(p, ast.Constant): parts.append(_lit(S, p.value.encode()))
+            elif isinstance(p, ast.FormattedValue) and p.conversion==-1 and p.format_spec is None:
+                v=_val(S,p.value,env)
+                if v[0]!="str" or v[1] is not False: raise Unsupported("f-string of non-str")
+                parts.append(v[2])
+            else: raise Unsupported("f-string part")
+        return ("str", False, parts[0] if len(parts)==1 else S.Concat(*parts))
+    raise Unsupported(ast.dump(n)[:80])
+
+def _bool(S, n, env):
+    if isinstance(n, ast.BoolOp):
+        xs=[_bool(S,v,env) for v in n.values]
+        return S.Or(*xs) if isinstance(n.op, ast.Or) else S.And(*xs)
+    if isinstance(n, ast.UnaryOp) and isinstance(n.op, ast.Not): return S.Not(_bool(S,n.operand,env))
+    if isinstance(n, ast.Compare) and len(n.ops)==1 and isinstance(n.ops[0], (ast.Is, ast.IsNot)) and isinstance(n.comparators[0], ast.Constant) and n.comparators[0].value is None:
+        v=_val(S,n.left,env)
+        none = v[1].is_none if v[0]=="auth" else v[1]
+        if none is False: none = S.BoolVal(False)
+        return none if isinstance(n.ops[0], ast.Is) else S.Not(none)
+    v=_val(S,n,env)
+    if v[0]=="bool": return v[1]
+    raise Unsupported("truthiness")
+
+
+
+def solvers() -> list:
+    """[(name, module, bounded)] — cvc5 decides the unbounded word equations; z3 cross-checks a bounded copy."""
+    import z3
+    from cvc5 import pythonic as cv
+
+    return [("cvc5", cv, None), ("z3", z3, 8)]
+
+
+def ident_terms(S, a: SymAuth):  # type: ignore[no-untyped-def]
+    """The identity the property speaks about: (authenticated, domain or '', principal or '')."""
+    au = S.And(S.Not(a.is_none), a.authd)
+    e = S.StringVal("")
+    return au, S.If(S.Or(S.Not(au), a.dnone), e, a.d), S.If(S.Or(S.Not(au), a.pnone), e, a.p)
+
+
+def same_identity(S, a: SymAuth, b: SymAuth):  # type: ignore[no-untyped-def]
+    x, y = ident_terms(S, a), ident_terms(S, b)
+    return S.And(x[0] == y[0], x[1] == y[1], x[2] == y[2])
+
+
+def nul_free_domain(S, a: SymAuth):  # type: ignore[no-untyped-def]
+    return S.Not(S.Contains(a.d, S.StringVal("\x00")))
+
+
+def bounded(S, a: SymAuth, n: int):  # type: ignore[no-untyped-def]
+    return S.And(S.Length(a.d) <= n, S.Length(a.p) <= n)
+
+
+class ConcAuth:
+    """SymAuth-shaped constants for one concrete AuthContext | None (translator validation)."""
+
+    def __init__(self, S, auth) -> None:  # type: ignore[no-untyped-def]
+        def sv(x):  # type: ignore[no-untyped-def]
+            return S.StringVal("" if x is None else x.encode().decode("latin-1"))
+
+        self.is_none = S.BoolVal(auth is None)
+        self.authd = S.BoolVal(bool(auth is not None and auth.authenticated))
+        self.dnone = S.BoolVal(auth is None or auth.domain is None)
+        self.pnone = S.BoolVal(auth is None or auth.principal is None)
+        self.d = sv(None if auth is None else auth.domain)
+        self.p = sv(None if auth is None else auth.principal)
+
+
+def _unescape(zs: str) -> str:
+    import re
+
+    return re.sub(r"\\u\{([0-9a-fA-F]+)\}", lambda m: chr(int(m.group(1), 16)), zs)
+
+
+def eval_string(S, term) -> str:  # type: ignore[no-untyped-def]
+    s = S.Solver()
+    v = S.String("__v")
+    s.add(v == term)
+    if str(s.check()) != "sat":
+        raise Unsupported("constant term did not evaluate")
+    out = s.model()[v].as_string()
+    return _unescape(out) if S.__name__ == "z3" else out
+
+
+def identity_corpus() -> list:
+    from vgi_rpc.rpc import AuthContext
+
+    out: list = [None, AuthContext.anonymous(), AuthContext(domain="d", authenticated=False, principal="p")]
+    for d in (None, "", "d", "jwt", "\u00e9", "a\x00b", "\x00"):
+        for p in (None, "", "p", "anonymous", "\x00", "x\x00y", "\u00fc\u4e2d"):
+            out.append(AuthContext(domain=d, authenticated=True, principal=p))
+    return out
+
+
+def validate_identity_translation(fn, as_bytes) -> dict:  # type: ignore[no-untyped-def]
+    """Real function vs its SMT term on the concrete corpus (both solvers)."""
+    bad: list = []
+    n = 0
+    for name, S, _b in solvers():
+        for auth in identity_corpus():
+            real = as_bytes(fn(auth))
+            got = eval_string(S, encode_fn(fn, S, ConcAuth(S, auth)))
+            n += 1
+            if got.encode("latin-1", "replace") != real:
+                bad.append({"solver": name, "auth": repr(auth), "real": real.hex(), "model": got.encode("latin-1", "replace").hex()})
+    return {"n": n, "n_disagree": len(bad), "disagreements": bad[:5]}
+
+
+def auth_from_model(S, model, a: SymAuth):  # type: ignore[no-untyped-def]
+    """Concrete AuthContext | None from a solver model, or raise Unsupported if it is not a real identity."""
+    from vgi_rpc.rpc import AuthContext
+
+    def b(t):  # type: ignore[no-untyped-def]
+        v = model.eval(t, True) if S.__name__ == "z3" else model[t]
+        return str(v).lower() == "true"
+
+    def s(t):  # type: ignore[no-untyped-def]
+        v = model.eval(t, True) if S.__name__ == "z3" else model[t]
+        raw = v.as_string()
+        raw = _unescape(raw) if S.__name__ == "z3" else raw
+        try:
+            return raw.encode("latin-1").decode("utf-8")
+        except (UnicodeEncodeError, UnicodeDecodeError) as e:
+            raise Unsupported(f"witness is not a UTF-8 image: {raw!r}") from e
+
+    if b(a.is_none):
+        return None
+    return AuthContext(domain=None if b(a.dnone) else s(a.d), authenticated=b(a.authd), principal=None if b(a.pnone) else s(a.p))
+
+
+def auth_to_json(auth) -> dict | None:  # type: ignore[no-untyped-def]
+    if auth is None:
+        return None
+    return {"domain": auth.domain, "authenticated": bool(auth.authenticated), "principal": auth.principal}
+
+
+def auth_from_json(d):  # type: ignore[no-untyped-def]
+    from vgi_rpc.rpc import AuthContext
+
+    if d is None:
+        return None
+    return AuthContext(domain=d["domain"], authenticated=d["authenticated"], principal=d["principal"])
+
+
+def real_identity(auth) -> tuple:  # type: ignore[no-untyped-def]
+    if auth is None or not auth.authenticated:
+        return (False, "", "")
+    return (True, auth.domain or "", auth.principal or "")
+
+
+# ---------------------------------------------------------------------------
+# stream dispatch layer (vgi_rpc.http.server._app_stream) over the stubbed token functions
+# ---------------------------------------------------------------------------
+# Arrow / user code are light fakes that only *record* (LOG): the subject is which checks the
+# repository performs, with which AAD, in which order, before it touches them.
+
+import contextlib as _contextlib
+
+from vgi_rpc.http.server import _app_stream as aps
+from vgi_rpc.metadata import CALL_STATE_KEY, CANCEL_KEY, STATE_KEY
+
+
+class FakeSchema:
+    """Stands for pa.Schema: a value with ``==`` and a byte serialisation."""
+
+    def __init__(self, tag: bytes) -> None:
+        self.tag = tag
+
+    def serialize(self) -> "FakeSchema":
+        return self
+
+    def to_pybytes(self) -> bytes:
+        return self.tag
+
+    def __eq__(self, other: object) -> bool:
+        return isinstance(other, FakeSchema) and bool(self.tag == other.tag)
+
+    def __ne__(self, other: object) -> bool:
+        return not self.__eq__(other)
+
+    __hash__ = None  # type: ignore[assignment]
+
+
+EMPTY_SCHEMA = FakeSchema(b"S:empty")
+
+
+class _PaIpc(_Strict):
+    _name = "pa.ipc"
+
+    def read_schema(self, buf: Any) -> FakeSchema:
+        LOG.append(("read_schema", buf))
+        if buf[:2] != b"S:":
+            raise ValueError("not a schema")
+        return FakeSchema(buf)
+
+
+class _Pa(_Strict):
+    _name = "pa"
+    ipc = _PaIpc()
+
+    def py_buffer(self, b: Any) -> Any:
+        return b
+
+    def KeyValueMetadata(self, d: Any) -> Any:  # noqa: N802
+        return d
+
+
+PA = _Pa()
+
+
+class CallStateBase:
+    """Stands for an ArrowSerializableDataclass used as call state."""
+
+    def __init__(self, payload: Any) -> None:
+        self.payload = payload
+
+    def serialize_to_bytes(self) -> Any:
+        return self.payload
+
+    @classmethod
+    def deserialize_from_bytes(cls, raw: Any, ipc_validation: Any = None) -> Any:
+        LOG.append(("call_state.deserialize", cls.__name__, raw))
+        return cls(raw)
+
+
+class StateBase:
+    """Stands for a StreamState subclass; every hook the framework may run is recorded."""
+
+    CALL_STATE_TYPE: Any = None
+
+    def __init__(self, payload: Any) -> None:
+        self.payload = payload  # serialised form (first byte \xff = 'Arrow IPC' encoding)
+        self.call_state: Any = None
+
+    def serialize_to_bytes(self) -> Any:
+        return self.payload
+
+    @classmethod
+    def deserialize_from_bytes(cls, raw: Any, ipc_validation: Any = None) -> Any:
+        LOG.append(("state.deserialize", cls.__name__, raw))
+        return cls(raw)
+
+    def bind_call_state(self, call_state: Any) -> None:
+        LOG.append(("bind_call_state", type(self).__name__))
+        self.call_state = call_state
+
+    def rehydrate(self, implementation: Any) -> None:
+        LOG.append(("rehydrate", type(self).__name__))
+
+    def on_cancel(self, ctx: Any) -> None:
+        LOG.append(("on_cancel", type(self).__name__, ctx.method_name))
+
+
+def _serialize_compact_stub(state: Any) -> Any:
+    return None  # 'not flat': the framework falls back to serialize_to_bytes()
+
+
+def _deserialize_compact_stub(cls: Any, raw: Any) -> Any:
+    LOG.append(("state.deserialize_compact", cls.__name__, raw))
+    return cls(raw)
+
+
+serialize_state_bytes = reglobalize(st._serialize_state_bytes, serialize_compact=_serialize_compact_stub)
+deserialize_state_bytes = reglobalize(st._deserialize_state_bytes, deserialize_compact=_deserialize_compact_stub)
+mint_cursor_token = reglobalize(st._mint_cursor_token, _seal_cursor_token=seal_cursor_token, _serialize_state_bytes=serialize_state_bytes, time=TIME)
+mint_call_token = reglobalize(st._mint_call_token, os=OSRAND, _seal_call_token=seal_call_token, time=TIME)
+
+resolve_call_from_token = reglobalize(aps._resolve_call_from_token, _open_call_token=open_call_token, secrets=SECRETS, pa=PA)
+unpack_and_recover_state = reglobalize(
+    aps._unpack_and_recover_state,
+    _open_cursor_token=open_cursor_token,
+    time=TIME,
+    _resolve_call_from_token=resolve_call_from_token,
+    _deserialize_state_bytes=deserialize_state_bytes,
+)
+
+
+class _Outcome:
+    def __init__(self) -> None:
+        self.status = "ok"
+        self.error_type = ""
+        self.error_message = ""
+        self.http_status = 200
+        self.response_state_bytes = None
+        self.request_state_bytes = None
+        self.cancelled = False
+
+
+@_contextlib.contextmanager
+def _telemetry_stub(app: Any, *, info: Any, method_name: Any, method_type: Any, auth: Any, transport_metadata: Any, kwargs: Any = None):  # type: ignore[no-untyped-def]
+    yield _Outcome()
+
+
+def _get_auth_stub() -> tuple:
+    return HOLD["auth"], {}
+
+
+class _Sink:
+    def __init__(self, server_id: Any = None) -> None:
+        pass
+
+    def flush_contents(self, writer: Any, schema: Any) -> None:
+        pass
+
+
+class _Writer:
+    def __init__(self, buf: Any, schema: Any) -> None:
+        self.buf = buf
+
+    def __enter__(self) -> "_Writer":
+        return self
+
+    def __exit__(self, *a: Any) -> None:
+        return None
+
+    def write_batch(self, batch: Any, custom_metadata: Any = None) -> None:
+        HOLD["responses"].append(custom_metadata)
+
+
+class _Uuid(_Strict):
+    _name = "uuid"
+
+    class _U:
+        def __init__(self, n: int) -> None:
+            self.hex = "sid%d" % n
+
+    def uuid4(self) -> Any:
+        HOLD["rand"] += 1
+        return self._U(HOLD["rand"])
+
+
+def _turn_stub(app: Any, **kw: Any) -> Any:
+    """Stands for _run_http_exchange_turn/_run_http_producer_turn: records which endpoint processes which
+    state, then refreshes the cursor with the same call the real turn makes (real _mint_cursor_token)."""
+    state = kw["state"]
+    LOG.append(("turn", kw["method_name"], type(state).__name__, state.payload, type(state.call_state).__name__ if state.call_state is not None else None))
+    tok, _sb = mint_cursor_token(state, kw.get("state_info", app._state_types.get(kw["method_name"])), kw["call_id"], app._token_key, kw["auth"])
+    HOLD["responses"].append({STATE_KEY: tok})
+    return "response"
+
+
+def _noop(*a: Any, **k: Any) -> None:
+    return None
+
+
+class _Reader:
+    def __init__(self, inner: Any, validation: Any = None) -> None:
+        pass
+
+    def read_next_batch_with_custom_metadata(self) -> tuple:
+        return "input-batch", HOLD["request_md"]
+
+
+class _Ipc(_Strict):
+    _name = "ipc"
+
+    def open_stream(self, stream: Any) -> Any:
+        return stream
+
+
+def _new_ipc_stream_stub(buf: Any, schema: Any) -> _Writer:
+    return _Writer(buf, schema)
+
+
+run_http_exchange_init = reglobalize(
+    aps._run_http_exchange_init,
+    _mint_cursor_token=mint_cursor_token,
+    new_ipc_stream=_new_ipc_stream_stub,
+    pa=PA,
+    empty_batch=lambda schema: "zero-batch",
+    _record_output=_noop,
+)
+
+
+def _producer_init_stub(app: Any, **kw: Any) -> Any:
+    """Stands for _run_http_producer_init: the first producer turn runs inside /init and returns the
+    stream's tokens (call token + first cursor), minted by the real mint function."""
+    result = kw["result"]
+    tok, _sb = mint_cursor_token(result.state, app._state_types.get(kw["method_name"]), kw["call_id"], app._token_key, kw["auth"])
+    HOLD["responses"].append({STATE_KEY: tok, CALL_STATE_KEY: kw["call_token"]})
+    return "response"
+
+
+def _read_request_stub(stream: Any, validation: Any = None, external: Any = None) -> tuple:
+    return HOLD["init_method"], {}
+
+
+run_stream_init_sync = reglobalize(
+    aps._run_stream_init_sync,
+    _read_request=_read_request_stub,
+    _deserialize_params=_noop,
+    _validate_call_signature=_noop,
+    _validate_params=_noop,
+    _ClientLogSink=_Sink,
+    _get_auth_and_metadata=_get_auth_stub,
+    uuid=_Uuid(),
+    _dispatch_telemetry=_telemetry_stub,
+    _mint_call_token=mint_call_token,
+    time=TIME,
+    _EMPTY_SCHEMA=EMPTY_SCHEMA,
+    _run_http_producer_init=_producer_init_stub,
+    _run_http_exchange_init=run_http_exchange_init,
+)
+
+run_stream_exchange_sync = reglobalize(
+    aps._run_stream_exchange_sync,
+    ValidatedReader=_Reader,
+    ipc=_Ipc(),
+    _get_auth_and_metadata=_get_auth_stub,
+    _unpack_and_recover_state=unpack_and_recover_state,
+    _EMPTY_SCHEMA=EMPTY_SCHEMA,
+    _record_input=_noop,
+    _dispatch_telemetry=_telemetry_stub,
+    _ClientLogSink=_Sink,
+    new_ipc_stream=_new_ipc_stream_stub,
+    _run_http_producer_turn=_turn_stub,
+    _run_http_exchange_turn=_turn_stub,
+)
+
+DISPATCH_FUNCS = [
+    aps._run_stream_init_sync,
+    aps._run_http_exchange_init,
+    aps._run_stream_exchange_sync,
+    aps._unpack_and_recover_state,
+    aps._resolve_call_from_token,
+    aps._declared_call_state_types,
+    st._mint_call_token,
+    st._mint_cursor_token,
+    st._serialize_state_bytes,
+    st._deserialize_state_bytes,
+    st._resolve_state_cls,
+    st._compute_aad,
+    st._compute_call_aad,
+]
+
+DISPATCH_STUBS = [
+    "pyarrow := recording fakes (schema = tagged value with ==; ipc.read_schema logs and rebuilds the tag; request reader returns the harness' metadata)",
+    "user code := recording fakes (state/call-state classes log deserialize, bind_call_state, rehydrate, on_cancel; the per-turn helpers _run_http_exchange_turn/_run_http_producer_turn are replaced by a recorder that refreshes the cursor through the real _mint_cursor_token)",
+    "serialize_compact/deserialize_compact := 'not flat' / recording fake (codec not under test)",
+    "os.urandom, uuid4 := fresh, never repeated values",
+    "secrets.compare_digest := ==",
+    "_dispatch_telemetry, _ClientLogSink, _record_input/_record_output, request validation := no-ops (telemetry is not the subject)",
+    "_get_auth_and_metadata := the harness' requester identity",
+]
+
+
+class MethodInfo:
+    def __init__(self, name: str) -> None:
+        self.name = name
+        self.param_types: dict = {}
+        self.param_defaults: dict = {}
+        self.params_schema = None
+        self.header_type = None
+
+        class _MT:
+            value = "stream"
+
+        self.method_type = _MT()
+
+
+class StreamResult:
+    def __init__(self, state: Any, call_state: Any, output_schema: Any, input_schema: Any) -> None:
+        self.state = state
+        self.call_state = call_state
+        self.output_schema = output_schema
+        self.input_schema = input_schema
+        self.header = None
+
+
+class FakeServer:
+    ipc_validation = None
+    external_config = None
+    server_id = "srv"
+    protocol_name = "P"
+    transport_kind = None
+    _protocol_version_parts = None
+    _dispatch_hook = None
+    server_version = ""
+    protocol_hash = ""
+
+    def __init__(self, implementation: Any, methods: dict) -> None:
+        self.implementation = implementation
+        self.methods = methods
+        self.ctx_methods: set = set()
+
+
+class FakeApp:
+    """The attributes of _HttpRpcApp the stream paths read; the cache is the real _CallStateCache."""
+
+    def __init__(self, server: FakeServer, state_types: dict, token_key: Any, token_ttl: Any, cache_entries: int) -> None:
+        self._server = server
+        self._state_types = state_types
+        self._token_key = token_key
+        self._token_ttl = token_ttl
+        self._max_response_bytes = None
+        self._max_externalized_response_bytes = None
+        # same construction as _HttpRpcApp.__init__, integer clock (no float())
+        self._call_state_cache = st._CallStateCache(max_entries=cache_entries, ttl=token_ttl if token_ttl > 0 else 3600)
+
+
+def _takes(fn: Any, name: str) -> bool:
+    return name in inspect.signature(fn).parameters
+
+
+def call_unpack(app: Any, token: Any, call_token: Any, state_info: Any, auth: Any, method_name: str) -> Any:
+    """_unpack_and_recover_state(app, token, call_token, state_info, auth[, method_name]) on the live signature."""
+    if _takes(aps._unpack_and_recover_state, "method_name"):
+        return unpack_and_recover_state(app, token, call_token, state_info, auth, method_name=method_name)
+    return unpack_and_recover_state(app, token, call_token, state_info, auth)
+
+
+def do_init(app: FakeApp, method: str, auth: Any) -> dict:
+    """Run the real /init path for ``method`` as ``auth``; returns the token metadata it handed out."""
+    HOLD["auth"] = auth
+    HOLD["init_method"] = method
+    HOLD["responses"] = []
+    run_stream_init_sync(app, method, app._server.methods[method], "request-body")
+    (md,) = HOLD["responses"]
+    return md
+
+
+def do_exchange(app: FakeApp, method: str, auth: Any, md: Any) -> Any:
+    """Run the real /{method}/exchange path; returns the metadata of the response (refreshed cursor) or raises."""
+    HOLD["auth"] = auth
+    HOLD["request_md"] = md
+    HOLD["responses"] = []
+    run_stream_exchange_sync(app, method, "request-body")
+    return HOLD["responses"][-1] if HOLD["responses"] else None
+
+
+# ---------------------------------------------------------------------------
+# real replay: the same scenarios on the un-stubbed functions (real crypto, zstd, base64, pyarrow)
+# ---------------------------------------------------------------------------
+
+import base64 as _real_b64
+from dataclasses import dataclass as _dataclass
+from types import SimpleNamespace as _NS
+
+from vgi_rpc.rpc import StreamState as _StreamState
+from vgi_rpc.utils import ArrowSerializableDataclass as _ASD
+from vgi_rpc.utils import IpcValidation as _IpcValidation
+
+
+@_dataclass
+class RealCall(_ASD):
+    tag: str = ""
+
+
+@_dataclass
+class RealStateA(_StreamState):
+    """A stream state that declares a call state."""
+
+    who: str = ""
+    n: int = 0
+    CALL_STATE_TYPE = RealCall
+
+    def bind_call_state(self, call_state):  # type: ignore[no-untyped-def]
+        object.__setattr__(self, "_bound", call_state)
+
+    def process(self, input, out, ctx):  # type: ignore[no-untyped-def]  # noqa: A002
+        self.n += 1
+
+
+@_dataclass
+class RealStateB(_StreamState):
+    """A different state class without call state."""
+
+    label: str = ""
+
+    def process(self, input, out, ctx):  # type: ignore[no-untyped-def]  # noqa: A002
+        pass
+
+
+class _FakeClock:
+    def __init__(self, now: int) -> None:
+        self.now = now
+
+    def time(self) -> int:
+        return self.now
+
+    def monotonic(self) -> float:
+        return float(self.now)
+
+
+class RealWorld:
+    """A worker (_HttpRpcApp-shaped namespace with the real cache) over the real token functions;
+    the clock seen by the token and stream modules is substituted (the hook the properties allow)."""
+
+    GARBAGE = b"!!garbage!!"
+
+    def __init__(self, state_types: dict, key: bytes, ttl: int, cache_entries: int, now: int = 100) -> None:
+        import pyarrow as pa
+
+        self.clock = _FakeClock(now)
+        self.app = _NS(
+            _token_key=key,
+            _token_ttl=ttl,
+            _state_types=state_types,
+            _server=_NS(ipc_validation=_IpcValidation.FULL, implementation=object()),
+            _call_state_cache=st._CallStateCache(max_entries=cache_entries, ttl=float(ttl) if ttl > 0 else 3600.0),
+        )
+        self.out_schema = pa.schema([("v", pa.int64())])
+        self.in_schema = pa.schema([("x", pa.int64())])
+        self.n = 0
+
+    def __enter__(self) -> "RealWorld":
+        self._saved = (st.time, aps.time)
+        st.time = self.clock  # type: ignore[assignment]
+        aps.time = self.clock  # type: ignore[assignment]
+        return self
+
+    def __exit__(self, *a: Any) -> None:
+        st.time, aps.time = self._saved  # type: ignore[assignment]
+
+    def init(self, method: str, auth: Any, producer: bool = False) -> dict:
+        """What _run_stream_init_sync does with the tokens: mint call token, warm the cache, mint the first cursor."""
+        import pyarrow as pa
+
+        self.n += 1
+        info = self.app._state_types[method]
+        cls = info[0] if isinstance(info, tuple) else info
+        state = cls(who=method, n=0) if cls is RealStateA else cls(label=method)
+        call_state = RealCall(tag=f"{method}#{self.n}") if cls.CALL_STATE_TYPE is not None else None
+        in_schema = pa.schema([]) if producer else self.in_schema
+        stream_id = f"sid{self.n}"
+        kw = {"method_name": method} if _takes(st._mint_call_token, "method_name") else {}
+        call_token, call_id, _csb = st._mint_call_token(call_state, self.out_schema, in_schema, self.app._token_key, auth, stream_id, **kw)
+        ckw = {"method_name": method} if _takes(st._CallStateCache.put, "method_name") else {}
+        self.app._call_state_cache.put(call_id, auth, st._ResolvedCall(call_state, self.out_schema, in_schema, stream_id), self.clock.time(), **ckw)
+        mkw = {"method_name": method} if _takes(st._mint_cursor_token, "method_name") else {}
+        cursor, _sb = st._mint_cursor_token(state, info, call_id, self.app._token_key, auth, **mkw)
+        return {"cursor": cursor, "call": call_token, "call_id": call_id, "tag": None if call_state is None else call_state.tag, "stream_id": stream_id, "method": method}
+
+    def unpack(self, method: str, auth: Any, cursor: Any, call: Any) -> tuple:
+        """('ok', state, resolved) | ('err', status, message) from the real _unpack_and_recover_state."""
+        info = self.app._state_types[method]
+        kw = {"method_name": method} if _takes(aps._unpack_and_recover_state, "method_name") else {}
+        try:
+            state, resolved, _cid, _sb = aps._unpack_and_recover_state(self.app, cursor, call, info, auth, **kw)
+        except Exception as e:  # noqa: BLE001
+            inf = http_error_info(e)
+            if inf is None:
+                return ("exc", type(e).__name__, str(e))
+            return ("err", inf[0], inf[1])
+        return ("ok", state, resolved)
+
+    @staticmethod
+    def relabel(token: bytes, version: int) -> bytes:
+        raw = _real_b64.b64decode(token)
+        return _real_b64.b64encode(bytes([version]) + raw[1:])
